@@ -68,7 +68,7 @@ def jobs(tier):
                                  mode="ring", kind="bounded", defines=d, unwind=max(r1, r2, c, r1 * (r1 - 1) // 2 if r1 else 0, 3) + 2, functions=fns,
                                  bound="concrete shape and split %s; cell values symbolic in the ring Z/256 (squared-Euclidean / product kernels)" % tag,
                                  clause=clause))
-    for (r1, r2, c) in ([(3, 2, 1), (2, 3, 1)] if tier == "quick" else [(3, 2, 1), (2, 3, 1), (4, 1, 1), (1, 4, 2), (3, 3, 2)]):
+    for (r1, r2, c) in ([(3, 2, 1), (2, 3, 1)] if tier == "quick" else [(3, 2, 1), (2, 3, 1), (4, 1, 1), (1, 4, 1), (3, 3, 1)]):   # two-column shapes (IEEE sums of two terms) did not finish in 1800 s
         for nth in (1, 2, 4):
             for method in (2,):   # Manhattan: IEEE equality of the squared-Euclidean multiplications is beyond the solver (ring-mode worker jobs cover that kernel)
                 d = {"VC_R1": r1, "VC_R2": r2, "VC_C": c, "VC_NTH": nth, "VC_METHOD": method}
